@@ -5,7 +5,9 @@ CONSTANTS
   MaxCerts = 2
   MaxScript = 3
   MaxBlocks = 2
-  Original = TRUE
+  Variant = "original"
+  Limits = {1, 2, 100}
+  Producers = {"v1", "v2"}
 INVARIANTS AcceptTypeOK ChunksExact PrefixExact NeverFails
 PROPERTIES Served
 CHECK_DEADLOCK FALSE
